@@ -12,6 +12,7 @@ import (
 	"sync"
 	"time"
 
+	"github.com/pojntfx/panrpc/go/pkg/rpc"
 )
 
 type spoke[T any] struct {
@@ -270,7 +271,18 @@ func c13Workload[T any](rep *Report, codec Codec[T], k int, rng *rand.Rand, fail
 	for j := range ns.qs {
 		ns.qs[j] = NewQueue()
 	}
-	ns.hubCtx, ns.hubStop = context.WithCancel(context.Background())
+	// (the hub opens this link from inside a handler serving another, live link and scopes it to that handler's
+	// context: the link context already carries that other link's identifier)
+	parent := context.Background()
+	parentID := ""
+	for i, s := range spokes[:k] {
+		if i != victim && s.hubID != "" {
+			parentID = s.hubID
+			parent = context.WithValue(parent, rpc.RemoteIDContextKey, parentID)
+			break
+		}
+	}
+	ns.hubCtx, ns.hubStop = context.WithCancel(parent)
 	ns.peer.Ctx, ns.peer.Cancel = context.WithCancel(context.Background())
 	linkOne(hub, ns.hubCtx, ns.qs[0], ns.qs[1], ns.qs[2], ns.qs[3], ns.hubErr)
 	linkOne(ns.peer, ns.peer.Ctx, ns.qs[2], ns.qs[3], ns.qs[0], ns.qs[1], ns.peer.LinkErr)
@@ -294,6 +306,14 @@ func c13Workload[T any](rep *Report, codec Codec[T], k int, rng *rand.Rand, fail
 	for _, old := range ids[:len(ids)-1] {
 		if old == newID {
 			rep.addViolation("property", key+":relink-id-reused", fmt.Sprintf("the link established after link %d failed was announced under the identifier %q, which an earlier link of this registry already carries", victim, newID), desc)
+		}
+	}
+	if pr, _, ok := ns.peer.AnyRemote(); ok {
+		r := withWatchdog(func() (any, error) { return pr.WhoAmI(context.Background()) })
+		if !r.ok || r.err != nil {
+			rep.addViolation("property", key+":relink-whoami", fmt.Sprintf("call from the new peer to the hub failed: %+v", r), desc)
+		} else if parts := strings.SplitN(r.val.(string), "|", 2); parts[0] != "H" || parts[1] != newID {
+			rep.addViolation("property", key+":relink-identity", fmt.Sprintf("the hub's handler for a call from the new peer read remote id %q from its context; that link was announced as %q (its link context was derived from a handler context of link %q)", parts[1], newID, parentID), desc)
 		}
 	}
 	en = hub.Remotes()
